@@ -207,9 +207,33 @@ def parseAll : List Rule → Nat → List Rule → Except DomErr (List Rule)
 content back (`cssstylesheet.py:352-357`) -/
 def setCssText (src : List Rule) : Except DomErr (List Rule) := parseAll src 0 []
 
+/-- `insertRule(text, index, inOrder)` with the rule given as a string (`cssstylesheet.py:600-645`): the index is
+checked first; the text — with the sheet's own `@charset` rule in front unless the text itself starts with `@charset` —
+is parsed into a temporary sheet (a rule that is not allowed there raises, the sheet is untouched); it must give exactly
+one new rule (`'Not a CSSRule'` otherwise), which then goes the way of a rule object. `src` = the rules of the text. -/
+def startsCharset : List Rule → Bool
+  | .charset _ :: _ => true
+  | _ => false
+
+/-- `pre` = the sheet's `@charset` rule is put in front of the text (`newrulescount, newruleindex = 2, 1`) -/
+def insertRuleTextCore (pre : Bool) (rules src : List Rule) (idx : Nat) (inOrder : Bool) : Except DomErr InsRes :=
+  match setCssText (if pre then rules.take 1 ++ src else src) with
+  | .error e => .error e
+  | .ok rs =>
+    if rs.length ≠ (if pre then 2 else 1) then .error .syntaxErr
+    else match rs[if pre then 1 else 0]? with
+      | some r => insertRule rules r (some idx) inOrder
+      | none => .error .syntaxErr
+
+def insertRuleText (rules src : List Rule) (index : Option Nat) (inOrder : Bool) : Except DomErr InsRes :=
+  let idx := index.getD rules.length
+  if idx > rules.length then .error .indexSizeErr
+  else insertRuleTextCore (!startsCharset src && headIsCharset rules) rules src idx inOrder
+
 inductive Op where
   | setEncoding (e : Option Name)
   | insert (r : Rule) (index : Option Nat) (inOrder : Bool)
+  | insertText (src : List Rule) (index : Option Nat) (inOrder : Bool)
   | insertCharsetNamed (name : Name) (index : Option Nat) (inOrder : Bool)   -- `CSSCharsetRule(encoding=name)` built first
   | delete (i : Nat)
   | setRuleEncoding (i : Nat) (e : Name)
@@ -220,6 +244,9 @@ deriving DecidableEq, Repr, Inhabited
 def applyOp (valid : Name → Bool) (rules : List Rule) : Op → Except DomErr (List Rule)
   | .setEncoding e => setEncoding valid rules e
   | .insert r i o => match insertRule rules r i o with
+    | .ok x => .ok x.rules
+    | .error e => .error e
+  | .insertText src i o => match insertRuleText rules src i o with
     | .ok x => .ok x.rules
     | .error e => .error e
   | .insertCharsetNamed n i o =>
@@ -268,13 +295,16 @@ def rules? (s : String) : Option (List Rule) :=
     | some r, some l => some (r :: l)
     | _, _ => none) (some [])
 
-/-- `enc/<name|N>`, `ins/<rule>/<idx|N>/<0|1>`, `insn/<name>/<idx|N>/<0|1>`, `del/<i>`, `renc/<i>/<name>`,
+/-- `enc/<name|N>`, `ins/<rule>/<idx|N>/<0|1>`, `inst/<rule,rule,…>/<idx|N>/<0|1>` (the rule given as text), `insn/<name>/<idx|N>/<0|1>`, `del/<i>`, `renc/<i>/<name>`,
 `text/<rule,rule,…>` (inside `text`, `charset=<name>`) -/
 def op? (s : String) : Option Op :=
   match s.splitOn "/" with
   | ["enc", e] => if e == "N" then some (.setEncoding none) else (decCps e).map (fun n => .setEncoding (some n))
   | ["ins", r, i, o] => match rule? r, idx? i with
     | some r, some i => some (.insert r i (o == "1"))
+    | _, _ => none
+  | ["inst", l, i, o] => match rules? l, idx? i with
+    | some l, some i => some (.insertText l i (o == "1"))
     | _, _ => none
   | ["insn", n, i, o] => match decCps n, idx? i with
     | some n, some i => some (.insertCharsetNamed n i (o == "1"))
